@@ -55,6 +55,8 @@ def check_optimal(R, sm, info):
         mo = pa._mapping_from_score_matrix(sm, 'optimal')
         mg = pa._mapping_from_score_matrix(sm, 'greedy')
     except Exception as e:
+        if not instr.is_library_exception(e):
+            raise
         R.fail('C15.optimal', 'optimal/raised', f'{type(e).__name__}: {str(e)[:100]}', **info)
         return None
     if not (conds.is_perm_columns(mo) and conds.is_perm_columns(mg)):
@@ -134,6 +136,8 @@ def invert(R, ref, field, metric, alg, info):
     try:
         out = pa.OraclePermutationAlignment(similarity_metric=metric, algorithm=alg)(est, ref)
     except Exception as e:
+        if not instr.is_library_exception(e):
+            raise
         R.fail('C15.invert', f'invert/raised/{metric}/{alg}', f'{type(e).__name__}: {str(e)[:100]}', **info)
         return
     R.check('C15.invert', out.shape == ref.shape and np.array_equal(out, ref), f'invert/{metric}/{alg}', f'oracle aligner ({metric}, {alg}) does not return the reference from a per-frequency permutation of it',
@@ -181,6 +185,8 @@ def run_global(case, R):
     try:
         mapping = al.calculate_mapping(est.reshape(K, F * T), ref.reshape(K, F * T))
     except Exception as e:
+        if not instr.is_library_exception(e):
+            raise
         R.fail('C15.global', 'global/raised', f'{type(e).__name__}: {str(e)[:100]}', K=K, F=F, T=T)
         return
     mapping = np.asarray(mapping)
